@@ -293,7 +293,7 @@ def main():
     known_hits = collections.Counter(); unmatched = collections.defaultdict(list); stage_fail_hist = collections.Counter()
     cpu = collections.Counter(); docs = 0; snapshots = 0; distinct = set(); missing = 0; evals = 0
     kept_tasks = []; kept_results = {}; spec_rows = []; samples_by_stream = {}; by_i = {}
-    keep_quota = {f: (6000 if thorough else 1500) for f in ("srt", "vtt", "scc", "stl")}
+    keep_quota = {f: (8000 if thorough else 2500) for f in ("srt", "vtt", "scc", "stl")}
     next_id = 0
     for k in range(rounds):
         n_k = min(per_round, n - k * per_round)
